@@ -56,7 +56,7 @@ def gen_direct_case(rnd):
         kind = 'meridional'
     elif fam < 0.90:
         lat1 = rnd.uniform(-90, 90)
-        az = rnd.choice([0.0, 90.0, 180.0, 270.0, 360.0]) + rnd.choice([0.0, 1e-9, -1e-9, 1e-6, -1e-6])
+        az = rnd.choice([0.0, 90.0, 180.0, 270.0, 360.0]) + rnd.choice([0.0, 1e-9, -1e-9, 1e-6, -1e-6, 3e-8, -3e-8, 5e-8, -5e-8, 2e-7, 1e-12])
         az = min(max(az, 0.0), 360.0)
         kind = 'cardinal'
     else:
@@ -167,6 +167,12 @@ def gen_inverse_case(rnd):
             la1 = 0.0
             la2 = rnd.choice([0.0, 0.0, 1e-9, -1e-7])
             lo2 = rnd.uniform(-180, 180)
+            if rnd.random() < 0.6:
+                # both points close to the equator but not on it (vertex latitudes from 1e-4 to 0.5 deg)
+                kind = 'near-equatorial'
+                v = 10 ** rnd.uniform(-4, -0.3)
+                la1 = rnd.choice([1, -1]) * v * rnd.uniform(0.3, 1.0)
+                la2 = rnd.choice([1, -1]) * v * rnd.uniform(0.3, 1.0)
         elif m == 4:
             la1 = rnd.choice([90.0, -90.0])
             la2 = rnd.uniform(-90, 90)
